@@ -600,6 +600,13 @@ fn render(m: &Model) -> GenCase {
                 if !expected && !in_exp {
                     continue;
                 }
+                if !expected && !murky {
+                    // unwrap.md / try_unwrap.md: the reference forms are generated for the kinds the enum's attribute lists
+                    // (none without an attribute); an accessor of another kind is unrequested extra API
+                    run.push_str(&format!(
+                        "    o.fail(\"`{name}` exists although the enum's attribute does not list that reference kind\", \"no such accessor\", \"generated\");\n"
+                    ));
+                }
                 if !expected {
                     n_from_expansion += 1;
                 }
